@@ -133,20 +133,12 @@ pub fn c05_urirefbuf_set_scheme_n4() {
     urirefbuf_set_scheme::<4, 2, 7>()
 }
 
-// @h prop=C05,C04 tier=thorough kind=check timeout=2400 bound="UriRefBuf text <= 5 bytes, scheme argument <= 2 bytes or removal" encodes="RiRefBufImpl::set_scheme;parse::find_scheme;PathImpl::looks_like_scheme;utils::{replace,allocate_range}"
+// @h prop=C05 tier=thorough kind=check timeout=2400 bound="UriRefBuf text <= 5 bytes, scheme argument <= 2 bytes or removal" encodes="RiRefBufImpl::set_scheme;parse::find_scheme;PathImpl::looks_like_scheme;utils::{replace,allocate_range}"
 #[cfg_attr(kani, kani::proof)]
 #[cfg_attr(kani, kani::unwind(11))]
 #[cfg_attr(kani, kani::stub(std::vec::Vec::resize, crate::stubs::vec_resize))]
 pub fn c05_urirefbuf_set_scheme_n5() {
     urirefbuf_set_scheme::<5, 2, 8>()
-}
-
-// @h prop=C05,C04 tier=thorough kind=check timeout=2400 bound="UriRefBuf text <= 6 bytes, scheme argument <= 2 bytes or removal" encodes="RiRefBufImpl::set_scheme;parse::find_scheme;PathImpl::looks_like_scheme;utils::{replace,allocate_range}"
-#[cfg_attr(kani, kani::proof)]
-#[cfg_attr(kani, kani::unwind(11))]
-#[cfg_attr(kani, kani::stub(std::vec::Vec::resize, crate::stubs::vec_resize))]
-pub fn c05_urirefbuf_set_scheme_n6() {
-    urirefbuf_set_scheme::<6, 2, 9>()
 }
 
 // @h prop=C05,C04:thorough tier=quick kind=check mem=8 timeout=1800 bound="UriRefBuf text <= 4 bytes, authority argument <= 2 bytes or removal" encodes="RiRefBufImpl::set_authority;parse::find_authority;utils::{replace,allocate_range}"
@@ -157,20 +149,12 @@ pub fn c05_urirefbuf_set_authority_n4() {
     urirefbuf_set_authority::<4, 2, 9>()
 }
 
-// @h prop=C05,C04 tier=thorough kind=check timeout=2400 bound="UriRefBuf text <= 5 bytes, authority argument <= 2 bytes or removal" encodes="RiRefBufImpl::set_authority;parse::find_authority;utils::{replace,allocate_range}"
+// @h prop=C05 tier=thorough kind=check timeout=2400 bound="UriRefBuf text <= 5 bytes, authority argument <= 2 bytes or removal" encodes="RiRefBufImpl::set_authority;parse::find_authority;utils::{replace,allocate_range}"
 #[cfg_attr(kani, kani::proof)]
 #[cfg_attr(kani, kani::unwind(11))]
 #[cfg_attr(kani, kani::stub(std::vec::Vec::resize, crate::stubs::vec_resize))]
 pub fn c05_urirefbuf_set_authority_n5() {
     urirefbuf_set_authority::<5, 2, 10>()
-}
-
-// @h prop=C05,C04 tier=thorough kind=check timeout=2400 bound="UriRefBuf text <= 6 bytes, authority argument <= 2 bytes or removal" encodes="RiRefBufImpl::set_authority;parse::find_authority;utils::{replace,allocate_range}"
-#[cfg_attr(kani, kani::proof)]
-#[cfg_attr(kani, kani::unwind(12))]
-#[cfg_attr(kani, kani::stub(std::vec::Vec::resize, crate::stubs::vec_resize))]
-pub fn c05_urirefbuf_set_authority_n6() {
-    urirefbuf_set_authority::<6, 2, 11>()
 }
 
 // @h prop=C05,C04 tier=quick kind=check mem=8 timeout=1800 bound="UriRefBuf text <= 4 bytes, path argument <= 3 bytes" encodes="RiRefBufImpl::set_path;parse::find_path;RiRefImpl::authority;utils::{replace,allocate_range}"
@@ -181,20 +165,12 @@ pub fn c05_urirefbuf_set_path_n4() {
     urirefbuf_set_path::<4, 3, 9>()
 }
 
-// @h prop=C05,C04 tier=thorough kind=check timeout=2400 bound="UriRefBuf text <= 5 bytes, path argument <= 3 bytes" encodes="RiRefBufImpl::set_path;parse::find_path;RiRefImpl::authority;utils::{replace,allocate_range}"
+// @h prop=C05 tier=thorough kind=check timeout=2400 bound="UriRefBuf text <= 5 bytes, path argument <= 3 bytes" encodes="RiRefBufImpl::set_path;parse::find_path;RiRefImpl::authority;utils::{replace,allocate_range}"
 #[cfg_attr(kani, kani::proof)]
 #[cfg_attr(kani, kani::unwind(11))]
 #[cfg_attr(kani, kani::stub(std::vec::Vec::resize, crate::stubs::vec_resize))]
 pub fn c05_urirefbuf_set_path_n5() {
     urirefbuf_set_path::<5, 3, 10>()
-}
-
-// @h prop=C05,C04 tier=thorough kind=check timeout=2400 bound="UriRefBuf text <= 6 bytes, path argument <= 3 bytes" encodes="RiRefBufImpl::set_path;parse::find_path;RiRefImpl::authority;utils::{replace,allocate_range}"
-#[cfg_attr(kani, kani::proof)]
-#[cfg_attr(kani, kani::unwind(12))]
-#[cfg_attr(kani, kani::stub(std::vec::Vec::resize, crate::stubs::vec_resize))]
-pub fn c05_urirefbuf_set_path_n6() {
-    urirefbuf_set_path::<6, 3, 11>()
 }
 
 // @h prop=C05,C04:thorough tier=quick kind=check mem=8 timeout=1800 bound="UriRefBuf text <= 4 bytes, query argument <= 2 bytes or removal" encodes="RiRefBufImpl::set_query;parse::find_query;utils::{replace,allocate_range}"
@@ -205,20 +181,12 @@ pub fn c05_urirefbuf_set_query_n4() {
     urirefbuf_set_query::<4, 2, 7>()
 }
 
-// @h prop=C05,C04 tier=thorough kind=check timeout=2400 bound="UriRefBuf text <= 5 bytes, query argument <= 2 bytes or removal" encodes="RiRefBufImpl::set_query;parse::find_query;utils::{replace,allocate_range}"
+// @h prop=C05 tier=thorough kind=check timeout=2400 bound="UriRefBuf text <= 5 bytes, query argument <= 2 bytes or removal" encodes="RiRefBufImpl::set_query;parse::find_query;utils::{replace,allocate_range}"
 #[cfg_attr(kani, kani::proof)]
 #[cfg_attr(kani, kani::unwind(11))]
 #[cfg_attr(kani, kani::stub(std::vec::Vec::resize, crate::stubs::vec_resize))]
 pub fn c05_urirefbuf_set_query_n5() {
     urirefbuf_set_query::<5, 2, 8>()
-}
-
-// @h prop=C05,C04 tier=thorough kind=check timeout=2400 bound="UriRefBuf text <= 6 bytes, query argument <= 2 bytes or removal" encodes="RiRefBufImpl::set_query;parse::find_query;utils::{replace,allocate_range}"
-#[cfg_attr(kani, kani::proof)]
-#[cfg_attr(kani, kani::unwind(11))]
-#[cfg_attr(kani, kani::stub(std::vec::Vec::resize, crate::stubs::vec_resize))]
-pub fn c05_urirefbuf_set_query_n6() {
-    urirefbuf_set_query::<6, 2, 9>()
 }
 
 // @h prop=C05,C04:thorough tier=quick kind=check mem=8 timeout=1800 bound="UriRefBuf text <= 4 bytes, fragment argument <= 2 bytes or removal" encodes="RiRefBufImpl::set_fragment;parse::find_fragment;utils::{replace,allocate_range}"
@@ -229,7 +197,7 @@ pub fn c05_urirefbuf_set_fragment_n4() {
     urirefbuf_set_fragment::<4, 2, 7>()
 }
 
-// @h prop=C05,C04 tier=thorough kind=check timeout=2400 bound="UriRefBuf text <= 5 bytes, fragment argument <= 2 bytes or removal" encodes="RiRefBufImpl::set_fragment;parse::find_fragment;utils::{replace,allocate_range}"
+// @h prop=C05 tier=thorough kind=check timeout=2400 bound="UriRefBuf text <= 5 bytes, fragment argument <= 2 bytes or removal" encodes="RiRefBufImpl::set_fragment;parse::find_fragment;utils::{replace,allocate_range}"
 #[cfg_attr(kani, kani::proof)]
 #[cfg_attr(kani, kani::unwind(11))]
 #[cfg_attr(kani, kani::stub(std::vec::Vec::resize, crate::stubs::vec_resize))]
@@ -237,55 +205,7 @@ pub fn c05_urirefbuf_set_fragment_n5() {
     urirefbuf_set_fragment::<5, 2, 8>()
 }
 
-// @h prop=C05,C04 tier=thorough kind=check timeout=2400 bound="UriRefBuf text <= 6 bytes, fragment argument <= 2 bytes or removal" encodes="RiRefBufImpl::set_fragment;parse::find_fragment;utils::{replace,allocate_range}"
-#[cfg_attr(kani, kani::proof)]
-#[cfg_attr(kani, kani::unwind(11))]
-#[cfg_attr(kani, kani::stub(std::vec::Vec::resize, crate::stubs::vec_resize))]
-pub fn c05_urirefbuf_set_fragment_n6() {
-    urirefbuf_set_fragment::<6, 2, 9>()
-}
-
 // thorough: deeper bounds
-// @h prop=C05,C04 tier=thorough kind=check timeout=3000 mem=16 bound="UriRefBuf text <= 8 bytes, scheme argument <= 3 bytes or removal" encodes="same as c05_urirefbuf_set_scheme_n6"
-#[cfg_attr(kani, kani::proof)]
-#[cfg_attr(kani, kani::unwind(13))]
-#[cfg_attr(kani, kani::stub(std::vec::Vec::resize, crate::stubs::vec_resize))]
-pub fn c05_urirefbuf_set_scheme_n8() {
-    urirefbuf_set_scheme::<8, 3, 12>()
-}
-
-// @h prop=C05,C04 tier=thorough kind=check timeout=3000 mem=16 bound="UriRefBuf text <= 8 bytes, authority argument <= 3 bytes or removal" encodes="same as c05_urirefbuf_set_authority_n6"
-#[cfg_attr(kani, kani::proof)]
-#[cfg_attr(kani, kani::unwind(15))]
-#[cfg_attr(kani, kani::stub(std::vec::Vec::resize, crate::stubs::vec_resize))]
-pub fn c05_urirefbuf_set_authority_n8() {
-    urirefbuf_set_authority::<8, 3, 14>()
-}
-
-// @h prop=C05,C04 tier=thorough kind=check timeout=3000 mem=16 bound="UriRefBuf text <= 8 bytes, path argument <= 4 bytes" encodes="same as c05_urirefbuf_set_path_n6"
-#[cfg_attr(kani, kani::proof)]
-#[cfg_attr(kani, kani::unwind(15))]
-#[cfg_attr(kani, kani::stub(std::vec::Vec::resize, crate::stubs::vec_resize))]
-pub fn c05_urirefbuf_set_path_n8() {
-    urirefbuf_set_path::<8, 4, 14>()
-}
-
-// @h prop=C05,C04 tier=thorough kind=check timeout=3000 mem=16 bound="UriRefBuf text <= 8 bytes, query argument <= 3 bytes or removal" encodes="same as c05_urirefbuf_set_query_n6"
-#[cfg_attr(kani, kani::proof)]
-#[cfg_attr(kani, kani::unwind(13))]
-#[cfg_attr(kani, kani::stub(std::vec::Vec::resize, crate::stubs::vec_resize))]
-pub fn c05_urirefbuf_set_query_n8() {
-    urirefbuf_set_query::<8, 3, 12>()
-}
-
-// @h prop=C05,C04 tier=thorough kind=check timeout=3000 mem=16 bound="UriRefBuf text <= 8 bytes, fragment argument <= 3 bytes or removal" encodes="same as c05_urirefbuf_set_fragment_n6"
-#[cfg_attr(kani, kani::proof)]
-#[cfg_attr(kani, kani::unwind(13))]
-#[cfg_attr(kani, kani::stub(std::vec::Vec::resize, crate::stubs::vec_resize))]
-pub fn c05_urirefbuf_set_fragment_n8() {
-    urirefbuf_set_fragment::<8, 3, 12>()
-}
-
 // ---- IriRefBuf (own RiRefBufImpl impl over a String; multi-byte arguments)
 setter_body!(irirefbuf_set_authority, IriRefBuf, t_iri_iriref_valid_k, mk_irirefbuf, Which::Authority, v_iri_authority,
     |x: &mut IriRefBuf, a: Option<&[u8]>| x.set_authority(a.map(|a| unsafe { iri::Authority::new_unchecked(as_str(a)) })), true);
@@ -306,44 +226,12 @@ pub fn c05_irirefbuf_set_query_n4() {
     irirefbuf_set_query::<4, 3, 8>()
 }
 
-// @h prop=C05,C04 tier=thorough kind=check timeout=2400 bound="IriRefBuf text <= 5 bytes (UTF-8), query argument <= 3 bytes (one 3-byte scalar fits) or removal" encodes="RiRefBufImpl::set_query for IriRefBuf (String buffer)"
+// @h prop=C05 tier=thorough kind=check timeout=2400 bound="IriRefBuf text <= 5 bytes (UTF-8), query argument <= 3 bytes (one 3-byte scalar fits) or removal" encodes="RiRefBufImpl::set_query for IriRefBuf (String buffer)"
 #[cfg_attr(kani, kani::proof)]
 #[cfg_attr(kani, kani::unwind(11))]
 #[cfg_attr(kani, kani::stub(std::vec::Vec::resize, crate::stubs::vec_resize))]
 pub fn c05_irirefbuf_set_query_n5() {
     irirefbuf_set_query::<5, 3, 9>()
-}
-
-// @h prop=C05,C04 tier=thorough kind=check timeout=3000 mem=16 bound="IriRefBuf text <= 6 bytes, authority argument <= 3 bytes or removal" encodes="RiRefBufImpl::set_authority for IriRefBuf"
-#[cfg_attr(kani, kani::proof)]
-#[cfg_attr(kani, kani::unwind(13))]
-#[cfg_attr(kani, kani::stub(std::vec::Vec::resize, crate::stubs::vec_resize))]
-pub fn c05_irirefbuf_set_authority_n6() {
-    irirefbuf_set_authority::<6, 3, 12>()
-}
-
-// @h prop=C05,C04 tier=thorough kind=check timeout=3000 mem=16 bound="IriRefBuf text <= 6 bytes, path argument <= 3 bytes" encodes="RiRefBufImpl::set_path for IriRefBuf"
-#[cfg_attr(kani, kani::proof)]
-#[cfg_attr(kani, kani::unwind(12))]
-#[cfg_attr(kani, kani::stub(std::vec::Vec::resize, crate::stubs::vec_resize))]
-pub fn c05_irirefbuf_set_path_n6() {
-    irirefbuf_set_path::<6, 3, 11>()
-}
-
-// @h prop=C05,C04 tier=thorough kind=check timeout=3000 mem=16 bound="IriRefBuf text <= 6 bytes, scheme argument <= 2 bytes or removal" encodes="RiRefBufImpl::set_scheme for IriRefBuf"
-#[cfg_attr(kani, kani::proof)]
-#[cfg_attr(kani, kani::unwind(11))]
-#[cfg_attr(kani, kani::stub(std::vec::Vec::resize, crate::stubs::vec_resize))]
-pub fn c05_irirefbuf_set_scheme_n6() {
-    irirefbuf_set_scheme::<6, 2, 9>()
-}
-
-// @h prop=C05,C04 tier=thorough kind=check timeout=3000 mem=16 bound="IriRefBuf text <= 6 bytes, fragment argument <= 3 bytes or removal" encodes="RiRefBufImpl::set_fragment for IriRefBuf"
-#[cfg_attr(kani, kani::proof)]
-#[cfg_attr(kani, kani::unwind(11))]
-#[cfg_attr(kani, kani::stub(std::vec::Vec::resize, crate::stubs::vec_resize))]
-pub fn c05_irirefbuf_set_fragment_n6() {
-    irirefbuf_set_fragment::<6, 3, 10>()
 }
 
 // ---- UriBuf / IriBuf: set_scheme takes a scheme (never removed); the other
@@ -367,52 +255,12 @@ pub fn c05_uribuf_set_scheme_n4() {
     uribuf_set_scheme::<4, 2, 7>()
 }
 
-// @h prop=C05,C04 tier=thorough kind=check timeout=2400 bound="UriBuf text <= 5 bytes, scheme argument <= 2 bytes" encodes="RiBufImpl::set_scheme;parse::scheme"
+// @h prop=C05 tier=thorough kind=check timeout=2400 bound="UriBuf text <= 5 bytes, scheme argument <= 2 bytes" encodes="RiBufImpl::set_scheme;parse::scheme"
 #[cfg_attr(kani, kani::proof)]
 #[cfg_attr(kani, kani::unwind(11))]
 #[cfg_attr(kani, kani::stub(std::vec::Vec::resize, crate::stubs::vec_resize))]
 pub fn c05_uribuf_set_scheme_n5() {
     uribuf_set_scheme::<5, 2, 8>()
-}
-
-// @h prop=C05,C04 tier=thorough kind=check timeout=2400 bound="UriBuf text <= 6 bytes, scheme argument <= 3 bytes" encodes="RiBufImpl::set_scheme;parse::scheme"
-#[cfg_attr(kani, kani::proof)]
-#[cfg_attr(kani, kani::unwind(11))]
-#[cfg_attr(kani, kani::stub(std::vec::Vec::resize, crate::stubs::vec_resize))]
-pub fn c05_uribuf_set_scheme_n6() {
-    uribuf_set_scheme::<6, 3, 10>()
-}
-
-// @h prop=C05,C04 tier=thorough kind=check timeout=3000 mem=16 bound="UriBuf text <= 7 bytes, authority argument <= 3 bytes or removal" encodes="RiRefBufImpl::set_authority for UriBuf"
-#[cfg_attr(kani, kani::proof)]
-#[cfg_attr(kani, kani::unwind(14))]
-#[cfg_attr(kani, kani::stub(std::vec::Vec::resize, crate::stubs::vec_resize))]
-pub fn c05_uribuf_set_authority_n7() {
-    uribuf_set_authority::<7, 3, 13>()
-}
-
-// @h prop=C05,C04 tier=thorough kind=check timeout=3000 mem=16 bound="UriBuf text <= 7 bytes, path argument <= 3 bytes" encodes="RiRefBufImpl::set_path for UriBuf"
-#[cfg_attr(kani, kani::proof)]
-#[cfg_attr(kani, kani::unwind(13))]
-#[cfg_attr(kani, kani::stub(std::vec::Vec::resize, crate::stubs::vec_resize))]
-pub fn c05_uribuf_set_path_n7() {
-    uribuf_set_path::<7, 3, 12>()
-}
-
-// @h prop=C05,C04 tier=thorough kind=check timeout=3000 mem=16 bound="IriBuf text <= 6 bytes, scheme argument <= 3 bytes" encodes="RiBufImpl::set_scheme for IriBuf"
-#[cfg_attr(kani, kani::proof)]
-#[cfg_attr(kani, kani::unwind(11))]
-#[cfg_attr(kani, kani::stub(std::vec::Vec::resize, crate::stubs::vec_resize))]
-pub fn c05_iribuf_set_scheme_n6() {
-    iribuf_set_scheme::<6, 3, 10>()
-}
-
-// @h prop=C05,C04 tier=thorough kind=check timeout=3000 mem=16 bound="IriBuf text <= 6 bytes, path argument <= 3 bytes" encodes="RiRefBufImpl::set_path for IriBuf"
-#[cfg_attr(kani, kani::proof)]
-#[cfg_attr(kani, kani::unwind(12))]
-#[cfg_attr(kani, kani::stub(std::vec::Vec::resize, crate::stubs::vec_resize))]
-pub fn c05_iribuf_set_path_n6() {
-    iribuf_set_path::<6, 3, 11>()
 }
 
 /// Buffers obtained without parsing: `default()` and `from_scheme` are valid
